@@ -45,7 +45,7 @@ CLAIMED = {
                      "model bounds 2 workers / 2 slots / epoch<=3 (quick) .. 5 (thorough)", tech="TLA+ model checking (TLC) of YkEpoch + scheduler-driven executions judged by TLC (TraceEpoch)"),
     "C11": dict(cat="model_checking", ref="DESIGN.md 6 (C11)",
                 text="Real init()/fin() cycles with operation histories (overwrites, removes that empty nodes, failed unique inserts and failed create_storage, storages "
-                     "created and deleted, cursors closed early, sessions left open at fin) with every form of global operator new/delete interposed: TLC requires that "
+                     "created and deleted, cursors closed early, sessions left open at fin, a free-running phase of racing overwrites vs neighbour inserts / removes) with every form of global operator new/delete interposed: TLC requires that "
                      "live bytes and blocks after each fin() do not exceed the baseline after an empty cycle; the retire/reclaim ledger of scheduler-driven runs must "
                      "release each retired object exactly once and nothing else (TraceEpoch ON={C11}).",
                 note="operator new/delete accounting only (tbb queues / glog use malloc directly)",
@@ -141,7 +141,7 @@ CLAIMED = {
                 tech="TLA+ model checking (TLC) + TLC trace validation of replayed implementation transitions"),
     "C20": dict(cat="model_checking", ref="DESIGN.md 6 (C20)",
                 text="TLC recomputes mem_usage from the canonical dump of the real tree (node count per depth, reserved bytes exact, used <= reserved, used monotone "
-                     "in occupied slots) for seeded multi-level / multi-layer contents; MemOK invariant in small models.",
+                     "in occupied slots) for seeded multi-level / multi-layer contents with heap values of mixed lengths / alignments and inline values; MemOK invariant in small models.",
                 note=SEQ_NOTE + "; sizeof constants are logged by the driver and trusted", tech=SEQ_TECH),
 }
 NA_REASON = "check not built yet in this revision of the framework (planned: see DESIGN.md section 6)"
